@@ -32,7 +32,7 @@ SPEC = {
                 "mutual-exclusion invariant, Proofs/C18_Conc.v mutex_reach)",
                 "callbacks handed to library calls (ring.Do) run synchronously; code of packages outside the seven analysed ones "
                 "takes none of the tracked locks and does not retain references handed to it"],
-    "level_text": "Theorems (Props/C18.v, 14, all closed): general — lockset_drf (disciplined threads never race, every interleaving of the "
+    "level_text": "Theorems (Props/C18.v, 13, all closed): general — lockset_drf (disciplined threads never race, every interleaving of the "
                   "mutex/rwmutex machine) and acyclic_no_lock_deadlock (strictly ordered acquisition, pending writers included, never "
                   "deadlocks); on the lock/field table regenerated from the Go source at every run — discipline_holds, table_drf, "
                   "lock_order_acyclic, no_lock_leaks, accessors_atomic, table_covers_guards; on the object models — alerts_not_torn and "
